@@ -45,6 +45,15 @@ Definition pmapping_eqb (a b : pmapping) : bool :=
 Definition color_eqb (a b : color) : bool :=
   let '(r, g, bl) := a in let '(r', g', bl') := b in (r =? r') && (g =? g') && (bl =? bl').
 
+(* the default mapping is compared by the NAME of the designated mapping: when several mappings carry the default name the
+   property does not choose among them (the model takes the last one: C10_default_is_last) *)
+Definition default_name_eqb (a b : pconfig) : bool :=
+  match nth_error (p_mappings a) (p_mapping a), nth_error (p_mappings b) (p_mapping b) with
+  | Some x, Some y => str_eqb (pm_name x) (pm_name y)
+  | None, None => true
+  | _, _ => false
+  end.
+
 (* one bit per field group so that a mismatch says where: returns the list of differing groups *)
 Definition pconfig_diff (a b : pconfig) : list N :=
   (if (p_bus a =? p_bus b) && (p_vendor a =? p_vendor b) && (p_product a =? p_product b) && (p_version a =? p_version b)
@@ -54,7 +63,7 @@ Definition pconfig_diff (a b : pconfig) : list N :=
   (if forall2b N.eqb (p_exit a) (p_exit b) then [] else [13]) ++
   (if cmode_eqb (p_cmode a) (p_cmode b) then [] else [14]) ++
   (if (p_octave a =? p_octave b)%Z && (p_semitone a =? p_semitone b)%Z && (p_channel a =? p_channel b)%Z &&
-      Nat.eqb (p_mapping a) (p_mapping b) && (p_velocity a =? p_velocity b)%Z then [] else [15]) ++
+      default_name_eqb a b && (p_velocity a =? p_velocity b)%Z then [] else [15]) ++
   (if forall2b color_eqb (p_colors a) (p_colors b) then [] else [16]).
 
 (* ------------------------------------------------------------------ C10 cases *)
@@ -63,8 +72,8 @@ Inductive impl_obs := IOk (c : pconfig) | IErr.
 (* verdict codes: 1 model accepts / implementation rejects; 2 model rejects / implementation accepts;
    3 the model crashes (cannot happen: C09_convert_total); 4 [reflects_b] fails on the implementation's Config;
    5 [wf_pconfig_b] fails on it; 10.. the two configurations differ in that field group *)
-Definition c10_verdict (T : tables) (t : toml_cfg) (o : impl_obs) : list N :=
-  match convert T t, o with
+Definition c10_verdict_gen (fx : fixes) (T : tables) (t : toml_cfg) (o : impl_obs) : list N :=
+  match convert_gen fx T t, o with
   | Ok cm, IOk ci =>
       (if reflects_b T t ci then [] else [4]) ++ (if wf_pconfig_b ci then [] else [5]) ++ pconfig_diff cm ci
   | Ok _, IErr => [1]
@@ -72,6 +81,8 @@ Definition c10_verdict (T : tables) (t : toml_cfg) (o : impl_obs) : list N :=
   | Err _, IErr => []
   | Crash, _ => [3]
   end.
+
+Definition c10_verdict : tables -> toml_cfg -> impl_obs -> list N := c10_verdict_gen all_fixed.
 
 Fixpoint failures_from {A} (f : A -> list N) (l : list A) (i : N) : list (N * list N) :=
   match l with
@@ -81,6 +92,11 @@ Fixpoint failures_from {A} (f : A -> list N) (l : list A) (i : N) : list (N * li
 
 Definition c10_failures (T : tables) (cases : list (toml_cfg * impl_obs)) : list (N * list N) :=
   failures_from (fun c => c10_verdict T (fst c) (snd c)) cases 0.
+
+(* self-test of the comparison: the ORIGINAL model (before F2-F4) run against the same observations must disagree
+   with an implementation that has the fixes (and vice versa) on the corpus witnesses *)
+Definition c10_selftest (T : tables) (cases : list (toml_cfg * impl_obs)) : list (N * list N) :=
+  failures_from (fun c => c10_verdict_gen original T (fst c) (snd c)) cases 0.
 
 (* how many cases the model accepts (reported as evidence) *)
 Definition c10_model_accepts (T : tables) (cases : list (toml_cfg * impl_obs)) : N :=
